@@ -91,6 +91,12 @@ def ops(tier, reduced=False):
     for i in (0, 1, 4):
         O.append(("removeAt", lambda a, i=i: "std.removeAt(%s, %d)" % (a, i),
                   lambda l, i=i: l[:i] + l[i + 1:]))
+    # steps near the limits of the index arithmetic (the documented bound is 2^31 - 1): a composition of two such views
+    # multiplies / adds them
+    for s, st in ((None, 65536), (1, 65536), (None, 2147483647), (2, 46341), (None, 1000)):
+        def srcb(a, s=s, st=st):
+            return "(%s)[%s::%d]" % (a, "" if s is None else s, st)
+        O.append(("slice-bigstep", srcb, lambda l, s=s, st=st: l[slice(s, None, st)]))
     for s, e, st in ((1, None, None), (None, -1, None), (0, 3, 2), (-2, None, 1)):
         def src(a, s=s, e=e, st=st):
             return "std.slice(%s, %s, %s, %s)" % (a, jval(s), jval(e), jval(st))
@@ -242,6 +248,8 @@ def check_array(acc, w, build, src, lst, kind, chain):
         "%s == std.filter(function(x) true, %s)", "std.filter(function(x) true, %s) != std.set(%s, function(x) std.toString(x))",
         "std.count(std.filter(function(x) true, [%s, %s]), std.filter(function(x) true, %s))",
         "std.repeat(%s, 2)", "std.reverse(%s)", "[std.length(%s[i:]) for i in [0, 1, 100]]", "std.mergePatch({a: 0}, {a: %s}).a",
+        "[std.member(%s, x) for x in [2.5, 0.5, -1, 1e9, 1.0000001, 9.999, 'a', null, [1]]]", "[std.count(%s, x) for x in [2.5, 10.5, -0.5, 'b', [1]]]",
+        "[std.find(x, %s) for x in [2.5, 1.5, 3.0000001, 'zz']]", "[std.contains(%s, x) for x in [1.5, 2.5, 998.5]]",
         "std.manifestXmlJsonml(['t', {}] + std.map(std.toString, %s))", "std.manifestIni({main: {k: std.map(std.toString, %s)}, sections: {}})",
     ]
     def side(nm, which=None):
